@@ -149,7 +149,9 @@ func newOperator(expr parser.Expr, storage *engstore.SelectorPool, opts *query.O
 					operators = append(operators, operator)
 				}
 
-				return exchange.NewCoalesce(model.NewVectorPool(stepsBatch), operators...), nil
+				// Range functions drop the metric name (all but last_over_time): series of
+				// different metrics can collide.
+				return exchange.NewDuplicateLabelCheck(exchange.NewCoalesce(model.NewVectorPool(stepsBatch), operators...), true), nil
 			}
 		}
 
@@ -169,7 +171,15 @@ func newOperator(expr parser.Expr, storage *engstore.SelectorPool, opts *query.O
 			nextOperators[i] = next
 		}
 
-		return function.NewFunctionOperator(e, call, nextOperators, stepsBatch, opts)
+		op, err := function.NewFunctionOperator(e, call, nextOperators, stepsBatch, opts)
+		if err != nil {
+			return nil, err
+		}
+		if e.Type() == parser.ValueTypeVector {
+			// Instant vector functions drop the metric name.
+			op = exchange.NewDuplicateLabelCheck(op, false)
+		}
+		return op, nil
 
 	case *parser.AggregateExpr:
 		hints.Func = e.Op.String()
@@ -235,7 +245,11 @@ func newOperator(expr parser.Expr, storage *engstore.SelectorPool, opts *query.O
 		case parser.ADD:
 			return next, nil
 		case parser.SUB:
-			return unary.NewUnaryNegation(next, stepsBatch)
+			op, err := unary.NewUnaryNegation(next, stepsBatch)
+			if err != nil {
+				return nil, err
+			}
+			return exchange.NewDuplicateLabelCheck(op, true), nil
 		default:
 			// This shouldn't happen as Op was validated when parsing already
 			// https://github.com/prometheus/prometheus/blob/v2.38.0/promql/parser/parse.go#L573.
@@ -349,7 +363,12 @@ func newScalarBinaryOperator(e *parser.BinaryExpr, selectorPool *engstore.Select
 		scalarSide = binary.ScalarSideLeft
 	}
 
-	return binary.NewScalar(model.NewVectorPool(stepsBatch), lhs, rhs, e.Op, scalarSide, e.ReturnBool)
+	op, err := binary.NewScalar(model.NewVectorPool(stepsBatch), lhs, rhs, e.Op, scalarSide, e.ReturnBool)
+	if err != nil || scalarSide == binary.ScalarSideBoth {
+		return op, err
+	}
+	// Arithmetic and bool comparisons with a scalar drop the metric name.
+	return exchange.NewDuplicateLabelCheck(op, false), nil
 }
 
 // Copy from https://github.com/prometheus/prometheus/blob/v2.39.1/promql/engine.go#L791.
